@@ -101,6 +101,7 @@ pub struct Exec {
     pub soup: Vec<Envelope>,
     pub poisoned: bool,
     pub case_id: String,
+    pub hits: Vec<String>,
 }
 
 pub fn to_pdelta(delta: &verif::Delta) -> PDelta {
@@ -168,7 +169,7 @@ impl Exec {
             let _g = rt.enter();
             Instant::now()
         };
-        Exec { rt, start, nodes: BTreeMap::new(), soup: Vec::new(), poisoned: false, case_id: String::new() }
+        Exec { rt, start, nodes: BTreeMap::new(), soup: Vec::new(), poisoned: false, case_id: String::new(), hits: Vec::new() }
     }
 
     pub fn now_ticks(&self) -> u64 {
@@ -261,7 +262,134 @@ impl Exec {
                 }
             };
         }
+        if head == "datagram" || head == "wirecase" || head == "mtusweep" {
+            let args: Vec<Sx> = cmd.list().unwrap()[1..].to_vec();
+            if self.poisoned {
+                return vec![("(nop)".to_string(), "(nop)".to_string())];
+            }
+            let r = catch_unwind(AssertUnwindSafe(|| {
+                if head == "datagram" {
+                    self.datagram(&args)
+                } else if head == "mtusweep" {
+                    self.mtusweep(&args)
+                } else {
+                    self.wirecase(&args)
+                }
+            }));
+            return match r {
+                Ok(Some(v)) => v,
+                Ok(None) => vec![bad(&head)],
+                Err(_) => {
+                    self.poisoned = true;
+                    vec![("(nop)".to_string(), format!("(harness-panic {})", take_panic()))]
+                }
+            };
+        }
         vec![self.step1(cmd, &head)]
+    }
+
+    /// `(mtusweep slot digest sched)`: the delta for budgets around every block / size boundary.
+    fn mtusweep(&mut self, a: &[Sx]) -> Option<Vec<(String, String)>> {
+        use chitchat::Serializable;
+        let slot = a.first()?.nat()?;
+        let digest = r_digest(a.get(1)?)?;
+        let sched = r_ids(a.get(2)?)?;
+        let full = {
+            let ctx = self.nodes.get(&slot)?;
+            let dg = verif::digest_from_parts(digest.clone());
+            verif::cc_compute_partial_delta_respecting_mtu(&ctx.cc, &dg, 65_503, &sched).serialized_len()
+        };
+        let mut mtus: Vec<usize> = vec![100, 101, 65_499, 65_503, 65_506, 65_507];
+        for c in [full, 16_384, 32_768, 49_152] {
+            for d in [-9i64, -4, -3, -2, -1, 0, 1, 2, 3, 4, 9] {
+                let m = c as i64 + d;
+                if (100..=65_507).contains(&m) {
+                    mtus.push(m as usize);
+                }
+            }
+        }
+        let n = self.nodes.len() as u64 + full as u64;
+        let mut r = crate::rng::Rng::new(n);
+        for _ in 0..6 {
+            mtus.push(r.range(100, 65_507) as usize);
+            mtus.push(r.range(100, (full.max(101)) as u64 + 50).min(65_507) as usize);
+        }
+        mtus.sort();
+        mtus.dedup();
+        let mut out = Vec::new();
+        for mtu in mtus {
+            let (l, o, pd) = self.do_delta(slot, &digest, mtu, &sched)?;
+            out.push((l, o));
+            if let Some(pd) = pd {
+                if pd.serialized_len > mtu {
+                    self.monitor_hit("C07", "delta-exceeds-budget", &format!("delta of {} bytes for a budget of {}", pd.serialized_len, mtu));
+                }
+            }
+        }
+        Some(out)
+    }
+
+    /// `(datagram slot hex)`: what the UDP transport + server loop do with a received datagram.
+    fn datagram(&mut self, a: &[Sx]) -> Option<Vec<(String, String)>> {
+        let slot = a.first()?.nat()?;
+        let bytes = a.get(1)?.bytes()?;
+        let (l, o, pm) = self.do_dec(&bytes);
+        let mut out = vec![(l, o)];
+        if let Some(pm) = pm {
+            let (l, o, _) = self.process_msg(slot, &pm)?;
+            out.push((l, o));
+        }
+        Some(out)
+    }
+
+    /// `(wirecase kind clusterhex digest (ops) thr)`: build a message the honest way (delta through
+    /// the `DeltaSerializer`), encode it, decode it, and decode the independent (model) encodings.
+    fn wirecase(&mut self, a: &[Sx]) -> Option<Vec<(String, String)>> {
+        let kind = a.first()?.atom()?.to_string();
+        let cluster_id = a.get(1)?.string()?;
+        let digest = r_digest(a.get(2)?)?;
+        let ops = a.get(3)?.list()?.to_vec();
+        let thr = a.get(4)?.nat()?;
+        let mut out = Vec::new();
+        let (l, o, pd) = self.do_mkdelta(10_000_000, &ops)?;
+        out.push((l, o));
+        let Some(pd) = pd else { return Some(out) };
+        let pm = match kind.as_str() {
+            "syn" => PMsg::Syn { cluster_id, digest },
+            "synack" => PMsg::SynAck { digest, delta: pd },
+            "ack" => PMsg::Ack { delta: pd },
+            _ => PMsg::BadCluster,
+        };
+        let (l, o, bytes) = self.do_enc(&pm);
+        out.push((l, o));
+        let Some(bytes) = bytes else { return Some(out) };
+        // the real decoder on the real encoder's output (+ trailing garbage must be left alone)
+        let (l, o, back) = self.do_dec(&bytes);
+        out.push((l, o));
+        if back.as_ref() != Some(&pm) {
+            self.monitor_hit("C08", "roundtrip", &format!("decode(encode(m)) != m for {}", &p_msg(&pm)[..p_msg(&pm).len().min(300)]));
+        }
+        let mut with_tail = bytes.clone();
+        with_tail.extend_from_slice(&[0xAA, 0x01, 0x02]);
+        let (l, o, _) = self.do_dec(&with_tail);
+        out.push((l, o));
+        // independent encodings produced by the model (uncompressed blocks, other block sizes)
+        if let Some(raw) = crate::driver::model_encraw(&p_msg(&pm), thr) {
+            let (l, o, back) = self.do_dec(&raw);
+            out.push((l, o));
+            let expect = strip_len(&pm);
+            if back.as_ref().map(strip_len) != Some(expect) {
+                self.monitor_hit("C08", "independent-encoding", "the real decoder does not decode the model's encoding to the same message");
+            }
+        }
+        Some(out)
+    }
+
+    pub fn monitor_hit(&mut self, property: &str, signature: &str, detail: &str) {
+        self.hits.push(format!(
+            "{{\"property\": \"{}\", \"signature\": \"{}\", \"case\": \"{}\", \"detail\": {:?}}}",
+            property, signature, self.case_id, detail
+        ));
     }
 
     fn step1(&mut self, cmd: &Sx, head: &str) -> (String, String) {
@@ -510,6 +638,18 @@ impl Exec {
                 let (l, o, _) = self.process_msg(slot, &pm)?;
                 Some((l, o))
             }
+            "msglite" => {
+                let slot = a.first()?.nat()?;
+                let pm = r_msg(a.get(1)?)?;
+                let (l, o, _) = self.process_msg(slot, &pm)?;
+                // drop the trailing node dump from both the command name and the observation
+                let l = l.replacen("(msg ", "(msglite ", 1);
+                let o = match o.rfind(" (node ") {
+                    Some(p) if o.starts_with("(ok ") => format!("{})", &o[..p]),
+                    _ => o,
+                };
+                Some((l, o))
+            }
             "live" => {
                 let slot = a.first()?.nat()?;
                 let _g = self.rt.enter();
@@ -628,6 +768,31 @@ impl Exec {
                     ],
                 );
                 Some((line, out))
+            }
+            "setcopyq" => {
+                let sx = Sx::L(std::iter::once(Sx::A("setcopy".into())).chain(a.iter().cloned()).collect());
+                let (_, o) = self.step1(&sx, "setcopy");
+                if o.starts_with("(ok") {
+                    Some((line, "(ok)".to_string()))
+                } else {
+                    Some((line, o))
+                }
+            }
+            "mkdelta" => {
+                let mtu = a.first()?.nat()? as usize;
+                let ops = a.get(1)?.list()?.to_vec();
+                let (l, o, _) = self.do_mkdelta(mtu, &ops)?;
+                Some((l, o))
+            }
+            "enc" => {
+                let pm = r_msg(a.first()?)?;
+                let (l, o, _) = self.do_enc(&pm);
+                Some((l, o))
+            }
+            "dec" => {
+                let bytes = a.first()?.bytes()?;
+                let (l, o, _) = self.do_dec(&bytes);
+                Some((l, o))
             }
             "dump" => {
                 let slot = a.first()?.nat()?;
@@ -782,6 +947,27 @@ impl Exec {
                 let cbs = ctx.callbacks.load(Ordering::SeqCst) - cb_before;
                 let evs = Self::take_events(ctx);
                 let reply_p = reply.as_ref().map(to_pmsg);
+                // size of the reply on the wire (this is what the UDP transport does with it)
+                let mut oversize = None;
+                let mut lenmismatch = None;
+                let wire = match &reply {
+                    None => "(wire none)".to_string(),
+                    Some(m) => {
+                        use chitchat::Serializable;
+                        match catch_unwind(AssertUnwindSafe(|| (m.serialize_to_vec().len(), m.serialized_len()))) {
+                            Ok((n, sl)) => {
+                                if n > verif::MAX_UDP_DATAGRAM_PAYLOAD_SIZE {
+                                    oversize = Some(n);
+                                }
+                                if n != sl {
+                                    lenmismatch = Some((n, sl));
+                                }
+                                plist("wire", [n.to_string(), sl.to_string()])
+                            }
+                            Err(_) => plist("wire", [p_panic(&take_panic())]),
+                        }
+                    }
+                };
                 let fx = plist(
                     "fx",
                     [
@@ -793,14 +979,116 @@ impl Exec {
                         Self::p_events(&evs),
                     ],
                 );
+                if let Some(n) = oversize {
+                    self.monitor_hit("C07", "oversize-reply", &format!("a reply of {n} bytes does not fit a UDP datagram (65507)"));
+                }
+                if let Some((n, sl)) = lenmismatch {
+                    self.monitor_hit("C08", "announced-length", &format!("reply announces {sl} bytes but serializes to {n}"));
+                }
                 let node = self.p_node(slot);
-                Some((l, plist("ok", [fx, node]), reply_p))
+                Some((l, plist("ok", [fx, wire, node]), reply_p))
             }
             Err(_) => {
                 self.poisoned = true;
                 Some((l, p_panic(&take_panic()), None))
             }
         }
+    }
+
+    /// `(mkdelta mtu (ops))`
+    fn do_mkdelta(&mut self, mtu: usize, ops: &[Sx]) -> Option<(String, String, Option<PDelta>)> {
+        use chitchat::VersionedValue;
+        let start = self.start;
+        verif::start_flush_log();
+        let r = catch_unwind(AssertUnwindSafe(|| {
+            let mut ser = verif::VDeltaSerializer::with_mtu(mtu);
+            let mut flags = String::from("b");
+            for op in ops {
+                let ok = match op.head()? {
+                    "opn" => {
+                        let l = op.tagged("opn")?;
+                        ser.try_add_node(r_id(&l[0])?, l[1].nat()?, l[2].nat()?)
+                    }
+                    "opk" => {
+                        let l = op.tagged("opk")?;
+                        let f = l[0].tagged("m")?;
+                        let status = match f[3].nat()? {
+                            0 => DeletionStatus::Set,
+                            1 => DeletionStatus::Deleted(start),
+                            _ => DeletionStatus::DeleteAfterTtl(start),
+                        };
+                        ser.try_add_kv(
+                            &f[0].string()?,
+                            VersionedValue { value: f[1].string()?, version: f[2].nat()?, status },
+                        )
+                    }
+                    "opm" => ser.try_set_max_version(op.tagged("opm")?[0].nat()?),
+                    _ => return None,
+                };
+                flags.push(if ok { '1' } else { '0' });
+            }
+            Some((flags, ser.finish()))
+        }));
+        let flushes = verif::take_flush_log();
+        let l = plist(
+            "mkdelta",
+            [mtu.to_string(), plist("", ops.iter().map(cmd_to_string)), p_oracle(&flushes)],
+        );
+        match r {
+            Ok(Some((flags, delta))) => {
+                let pd = to_pdelta(&delta);
+                Some((l, plist("ok", [flags, p_delta(&pd)]), Some(pd)))
+            }
+            Ok(None) => None,
+            Err(_) => Some((l, p_panic(&take_panic()), None)),
+        }
+    }
+
+    /// `(enc msg)`: serialize with the real encoder.
+    fn do_enc(&mut self, pm: &PMsg) -> (String, String, Option<Vec<u8>>) {
+        use chitchat::Serializable;
+        let msg = from_pmsg(pm);
+        verif::start_flush_log();
+        let r = catch_unwind(AssertUnwindSafe(|| (msg.serialized_len(), msg.serialize_to_vec())));
+        let flushes = verif::take_flush_log();
+        let l = plist("enc", [p_msg(pm), p_oracle(&flushes)]);
+        match r {
+            Ok((len, bytes)) => (l, plist("ok", [len.to_string(), hex(&bytes)]), Some(bytes)),
+            Err(_) => (l, p_panic(&take_panic()), None),
+        }
+    }
+
+    /// `(dec hex)`: deserialize with the real decoder.
+    fn do_dec(&mut self, bytes: &[u8]) -> (String, String, Option<PMsg>) {
+        use chitchat::Deserializable;
+        verif::start_flush_log();
+        let r = catch_unwind(AssertUnwindSafe(|| {
+            let mut buf = bytes;
+            let res = ChitchatMessage::deserialize(&mut buf);
+            (res, buf.len())
+        }));
+        let flushes = verif::take_flush_log();
+        let l = plist("dec", [hex(bytes), p_oracle(&flushes)]);
+        match r {
+            Ok((Ok(msg), rest)) => {
+                let pm = to_pmsg(&msg);
+                (l, plist("ok", [rest.to_string(), p_msg(&pm)]), Some(pm))
+            }
+            Ok((Err(_), _)) => (l, "(err)".to_string(), None),
+            Err(_) => (l, p_panic(&take_panic()), None),
+        }
+    }
+}
+
+/// A message with the recorded delta length erased (it depends on the block layout).
+pub fn strip_len(m: &PMsg) -> PMsg {
+    match m {
+        PMsg::SynAck { digest, delta } => PMsg::SynAck {
+            digest: digest.clone(),
+            delta: PDelta { serialized_len: 0, node_deltas: delta.node_deltas.clone() },
+        },
+        PMsg::Ack { delta } => PMsg::Ack { delta: PDelta { serialized_len: 0, node_deltas: delta.node_deltas.clone() } },
+        other => other.clone(),
     }
 }
 
